@@ -648,7 +648,7 @@ def make_damaged_cases(ctx, pool, n_streams, kinds=None, modes=None):
     nested = [d for d in pool if d.get('nested')]
     plain = [d for d in small if not d.get('nested')]
     for j, d in enumerate(nested):
-        for kind in [x for x in ('stop', 'undef-element', 'sec4-len-minus') if x in kinds]:
+        for kind in [x for x in ('stop', 'undef-element', 'sec4-len-minus', 'sec3-len-minus') if x in kinds]:
             bad = damage(d['bytes'], kind, rng)
             g1, g2 = rng.choice(plain)['bytes'], rng.choice(plain)['bytes']
             for shape, msgs, dmg in (('last', [g1, bad], [False, True]), ('alone', [bad], [True]),
